@@ -3,6 +3,7 @@ package rules
 import (
 	"fmt"
 	"go/token"
+	"os"
 	"sort"
 	"strings"
 
@@ -22,13 +23,16 @@ func c10(c *eng.Ctx, r *eng.Report) {
 		"R10.3 JUMP/JUMPI store to pc only on the accepting edge of validJumpdest, validJumpdest keeps its three conjuncts (range, ==JUMPDEST, isCode), and the halts/jumps/reverts/returns flags equal the reference table. " +
 		"R10.4 the jump bitmap consulted is the running code's own: the frame-shared map is touched only under CodeHash != zero and keyed by c.CodeHash, every bitmap stored or consulted is codeBitmap(c.Code) or that entry, only isCode/NewContract write the two fields, and codeBitmap marks exactly the operands of PUSH1..PUSH32; " +
 		"R10.5 fresh memory is zero: Memory.store is assigned only in Resize and only as append(m.store, make([]byte, n)...), NewMemory returns a fresh object and Run takes one per frame. " +
-		"Not decided: the 256-bit arithmetic itself (holiman/uint256), KECCAK, memory copy semantics, the bit arithmetic of bitvec.set/set8."
+		"R10.6 every memory-touching standard opcode reads and writes exactly the regions its definition names (offset/length operands as entry stack slots, compared with a reference table from the Yellow Paper and the EIPs). " +
+		"Not decided: the 256-bit arithmetic itself (holiman/uint256), KECCAK, the bytes copied by Memory.Set/Copy, the bit arithmetic of bitvec.set/set8."
 	r.Assume = []string{"holiman/uint256 v1.1.1 methods implement their documented semantics (z.Op(x,y) sets z = x op y)", "Yellow Paper (δ,α) table transcribed in rules/vmrows.go"}
 	rows := analyseRows(c, r, "R10.1")
 	c10Arity(c, r, rows)
 	c10Binding(c, r, rows)
 	c10Shuffles(c, r, rows)
 	c10Jumps(c, r, rows)
+	c10DumpMem(rows)
+	c10MemOperands(c, r, rows)
 	c10Bitmap(c, r)
 	c10Memory(c, r)
 }
@@ -437,6 +441,17 @@ func c10Jumps(c *eng.Ctx, r *eng.Report, rows []rowFx) {
 // c10Bitmap: the bitmap consulted for a jump is the bitmap of the running
 // code. The map shared between frames is keyed by code hash, so it may be
 // read or written only when the contract has one (initcode has none).
+func c10DumpMem(rows []rowFx) {
+	if os.Getenv("RR_DUMP_MEM") == "" {
+		return
+	}
+	for _, rf := range rows {
+		for _, m := range rf.Fx.Mem {
+			fmt.Printf("MEM %s %s off=%s size=%s\n", rf.Row.Name, m.Method, m.Off, m.Size)
+		}
+	}
+}
+
 func c10Bitmap(c *eng.Ctx, r *eng.Report) {
 	const rule = "R10.4"
 	r.Min(rule, 4)
@@ -636,5 +651,59 @@ func c10Memory(c *eng.Ctx, r *eng.Report) {
 			n++
 		}
 		r.Check(n == 1, rule, "Run:own-memory", c.Pos(run.Pos()), "each frame allocates its memory with NewMemory()", fmt.Sprintf("EVMInterpreter.Run calls NewMemory %d times (one per frame expected)", n))
+	}
+}
+
+// memRef: which entry stack slots delimit the memory region each standard
+// opcode reads (r) or writes (w), from the Yellow Paper (appendix H.2) and the
+// EIPs that added opcodes. "32" is the constant word size.
+var memRef = map[string][]string{
+	"MLOAD":          {"r slot0 32"},
+	"MSTORE":         {"w slot0 32"},
+	"SHA3":           {"r slot0 slot1"},
+	"KECCAK256":      {"r slot0 slot1"},
+	"CALLDATACOPY":   {"w slot0 slot2"},
+	"CODECOPY":       {"w slot0 slot2"},
+	"EXTCODECOPY":    {"w slot1 slot3"},
+	"RETURNDATACOPY": {"w slot0 slot2"},
+	"MCOPY":          {"c slot0 slot2", "c slot1 slot2"},
+	"LOG0":           {"r slot0 slot1"}, "LOG1": {"r slot0 slot1"}, "LOG2": {"r slot0 slot1"}, "LOG3": {"r slot0 slot1"}, "LOG4": {"r slot0 slot1"},
+	"RETURN":       {"r slot0 slot1"},
+	"REVERT":       {"r slot0 slot1"},
+	"CREATE":       {"r slot1 slot2"},
+	"CREATE2":      {"r slot1 slot2"},
+	"CALL":         {"r slot3 slot4", "w slot5 slot6"},
+	"CALLCODE":     {"r slot3 slot4", "w slot5 slot6"},
+	"DELEGATECALL": {"r slot2 slot3", "w slot4 slot5"},
+	"STATICCALL":   {"r slot2 slot3", "w slot4 slot5"},
+}
+
+// c10MemOperands: each memory-touching opcode reads and writes the region its
+// specification names (offset and length taken from the right stack items).
+func c10MemOperands(c *eng.Ctx, r *eng.Report, rows []rowFx) {
+	const rule = "R10.6"
+	r.Min(rule, 20)
+	for _, rf := range rows {
+		want, ok := memRef[rf.Row.Name]
+		if !ok || rf.Row.Superseded {
+			continue
+		}
+		var got []string
+		for _, m := range rf.Fx.Mem {
+			k := "r"
+			switch m.Method {
+			case "Set", "Set32":
+				k = "w"
+			case "Copy":
+				k = "c"
+			}
+			got = append(got, fmt.Sprintf("%s %s %s", k, m.Off, m.Size))
+		}
+		sort.Strings(got)
+		got = uniq(got)
+		w := append([]string{}, want...)
+		sort.Strings(w)
+		key := fmt.Sprintf("row:%s@%s", rf.Row.Name, rf.Row.Where)
+		r.Check(strings.Join(got, "; ") == strings.Join(w, "; "), rule, key, c.Pos(rf.Row.Pos), "memory regions touched: "+strings.Join(w, "; "), rf.Row.Name+" touches memory at ["+strings.Join(got, "; ")+"] but its definition names ["+strings.Join(w, "; ")+"] (r=read, w=write, c=copy; offset and length as entry stack slots): the opcode reads or writes the wrong bytes")
 	}
 }
